@@ -41,7 +41,7 @@ def san_env(flavour, wd, leaks=False):
     env['G_DEBUG'] = 'gc-friendly'
     env['MALLOC_PERTURB_'] = '165'
     if flavour == 'asan':
-        env['ASAN_OPTIONS'] = ('redzone=512:max_redzone=2048:detect_stack_use_after_return=1:strict_string_checks=1:'
+        env['ASAN_OPTIONS'] = ('redzone=512:max_redzone=2048:detect_stack_use_after_return=1:'
                                'detect_leaks=%d:exitcode=97:log_path=%s/san:abort_on_error=0:allocator_may_return_null=1:'
                                'malloc_context_size=12' % (1 if leaks else 0, wd))
         env['UBSAN_OPTIONS'] = 'print_stacktrace=1:log_path=%s/san' % wd
